@@ -355,16 +355,18 @@ func TestKnown_C09_NilContextAcquireAfterStop(t *testing.T) {
 	if err := e.StopWithContext(context.Background(), StopOptions{}); err != nil {
 		t.Fatal(err)
 	}
-	var rec interface{}
-	func() {
-		defer func() { rec = recover() }()
-		e.mu.RLock()
-		ctx := e.ctx // what handleWatchEvent passes to `go e.attemptAcquireWithRetry(e.ctx)`
-		e.mu.RUnlock()
-		e.attemptAcquireWithRetry(ctx)
-	}()
-	if rec != nil {
-		t.Fatalf("VIOLATION-REPRODUCED: a deletion event delivered after StopWithContext starts an acquisition round with a nil context: panic %v", rec)
+	// a deletion event delivered after the stop: before the repair this ran
+	// `go e.attemptAcquireWithRetry(e.ctx)` with a nil context and the goroutine
+	// panicked in ctx.Done() (which takes the whole test binary down)
+	var creates atomic.Int32
+	kv.SetCreateFunc(func(key string, value []byte, opts ...natsmock.KVOption) (uint64, error) {
+		creates.Add(1)
+		return 0, errors.New("key exists")
+	})
+	e.handleWatchEvent(nil)
+	time.Sleep(300 * time.Millisecond)
+	if creates.Load() != 0 {
+		t.Fatalf("VIOLATION-REPRODUCED: a deletion event delivered after StopWithContext started an acquisition round")
 	}
 }
 
@@ -412,10 +414,11 @@ func TestKnown_C09_UntrackedAcquireIssuesCreateAfterStop(t *testing.T) {
 	case <-time.After(3 * time.Second):
 		t.Skip("schedule point not reached")
 	}
+	// the goroutine is held at the schedule point for one second, well inside Stop's 5 s cap
+	time.AfterFunc(time.Second, func() { close(r.release) })
 	_ = e.Stop()
 	stopReturned.Store(true)
-	close(r.release)
-	time.Sleep(300 * time.Millisecond)
+	time.Sleep(1300 * time.Millisecond)
 	if createdAfterStop.Load() {
 		t.Fatalf("VIOLATION-REPRODUCED: Stop returned while an acquisition goroutine it does not track was still running; that goroutine then issued a Create on the store")
 	}
